@@ -64,7 +64,8 @@ RULE = (
     "VALUE text (ctl-ref).  HTTP level: method tokens POST, "
     "M-POST, GET, HEAD, PUT, PATCH, DELETE, OPTIONS, TRACE, CONNECT, unknown; "
     "HTTP/1.0 and 1.1; request targets; Content-Length exact/missing/"
-    "non-numeric/negative/smaller/larger/huge/duplicate; Accept, "
+    "non-numeric/negative/smaller/larger/huge/duplicate (also together with "
+    "a non-POST method token: classes non-POST-with-cl:*); Accept, "
     "Accept-Charset (q-values), Accept-Range, Content-Type (charsets), "
     "Content-Encoding, Expect, Connection, Transfer-Encoding values "
     "(acceptable, unacceptable, odd characters, latin-1, NUL, obs-fold, "
@@ -1078,6 +1079,9 @@ def _g_request(draw, profile='mixed', inst_depth=None):
             rec['cl'] = _g_cl_defect(draw)
         elif k <= 9:
             rec['method'] = _pick(draw, VERBS_405 + VERBS_OTHER)
+            if draw(_I) % 3 == 0:
+                # every method x every Content-Length form
+                rec['cl'] = _g_cl_defect(draw)
         elif k == 10:
             rec['target'] = _pick(draw, TARGETS)
         else:
@@ -1655,6 +1659,8 @@ def run_request(ctx, fx, rec, classes):
     classes.append('method:' + (rec['method'] if len(rec['method']) < 10
                                 else 'long'))
     classes.append('cl:' + rec['cl'][0])
+    if rec['method'] != 'POST' and rec['cl'][0] != 'exact':
+        classes.append('non-POST-with-cl:' + rec['cl'][0])
     if info.get('well_formed') is False:
         classes.append('xml:ill-formed')
     for c in info['ctl']:
